@@ -153,7 +153,11 @@ func (nr *NativeRunner) build() error {
 	return nr.err
 }
 
-func (nr *NativeRunner) run(c *ReplayCase) (*nativeResult, error) {
+func (nr *NativeRunner) run(c *ReplayCase) (*nativeResult, error) { return nr.runEnv(c, nil) }
+
+// runEnv runs one case natively with extra environment variables (GOMAXPROCS=1 makes Go's scheduler run the goroutines
+// of the case one after the other — the "one loop lags behind the other" schedules of the executor).
+func (nr *NativeRunner) runEnv(c *ReplayCase, env []string) (*nativeResult, error) {
 	if err := nr.build(); err != nil {
 		return nil, err
 	}
@@ -179,7 +183,7 @@ func (nr *NativeRunner) run(c *ReplayCase) (*nativeResult, error) {
 	defer cancel()
 	cmd := exec.CommandContext(ctx, nr.bin, "-test.run", "^TestVerifReplay$", "-test.count=1", testLimit)
 	cmd.Dir = nr.dir
-	cmd.Env = append(os.Environ(), "VERIF_CASE="+cf, "VERIF_OUT="+of)
+	cmd.Env = append(append(os.Environ(), "VERIF_CASE="+cf, "VERIF_OUT="+of), env...)
 	var stderr bytes.Buffer
 	cmd.Stdout = &stderr
 	cmd.Stderr = &stderr
@@ -298,6 +302,17 @@ func (nr *NativeRunner) confirm(v *Violation) {
 }
 
 func (nr *NativeRunner) confirm1(v *Violation) {
+	nr.confirmWith(v, nil)
+	if v.Confirmed == "not-reproduced" && !strings.HasPrefix(v.Label, "nontermination:") && !strings.HasPrefix(v.NativeOut, "native run diverged") {
+		// the executor runs goroutines one after the other until they block; Go's scheduler does the same with one P
+		nr.confirmWith(v, []string{"GOMAXPROCS=1"})
+		if v.Confirmed == "reproduced" {
+			v.NativeOut += " (native run with GOMAXPROCS=1: goroutines run one after the other, as in the executor's schedule)"
+		}
+	}
+}
+
+func (nr *NativeRunner) confirmWith(v *Violation, env []string) {
 	if strings.HasPrefix(v.Label, "race: RACE") {
 		nr.confirmRace(v)
 		return
@@ -305,7 +320,7 @@ func (nr *NativeRunner) confirm1(v *Violation) {
 	if strings.HasPrefix(v.Label, "nontermination:") {
 		v.Case.Label = v.Label // selects the short time limit of the hang probe
 	}
-	res, err := nr.run(v.Case)
+	res, err := nr.runEnv(v.Case, env)
 	if err != nil {
 		v.Confirmed, v.NativeOut = "not-run", err.Error()
 		return
